@@ -66,6 +66,10 @@ type Case struct {
 	Ctx     Ctx        `json:"ctx"`
 	Windows [][2]int64 `json:"windows"` // one (from_ns, to_ns) per execution
 	Class   []string   `json:"class,omitempty"`
+	// TraceQL: what the context of execution i asks for: 0 = portion i of len(Windows) with the trace ids found so far (the loop of
+	// ComplexRequestProcessor), 1 = a plain execution (RandomFilter.Max == 0: SimpleRequestProcessor), 2 = portion i without cached
+	// ids. Absent = all 0 (one window: plain). One plan object meets these contexts in turn (tail, reuse); fresh plans meet the same.
+	Sched []int `json:"sched,omitempty"`
 	// observations: one text per window; "!<kind>: <message>" for an error
 	Tail   []string `json:"tail,omitempty"`
 	Reuse  []string `json:"reuse,omitempty"`
@@ -120,13 +124,25 @@ func mkCtx(c *Case, w [2]int64, portion int) *shared.PlannerContext {
 
 // ComplexRequestProcessor: portion i of len(Windows); the ids found so far are handed to the next portion
 func setPortion(pc *shared.PlannerContext, c *Case, portion int) {
-	if len(c.Windows) < 2 {
+	kind := 0
+	if portion < len(c.Sched) {
+		kind = c.Sched[portion]
+	}
+	if kind == 1 || (len(c.Sched) == 0 && len(c.Windows) < 2) {
+		pc.RandomFilter = shared.RandomFilter{}
+		pc.CachedTraceIds = nil
 		return
 	}
-	pc.RandomFilter = shared.RandomFilter{Max: len(c.Windows), I: portion}
+	max := len(c.Windows)
+	if max < 2 {
+		max = 2
+	}
+	pc.RandomFilter = shared.RandomFilter{Max: max, I: portion % max}
 	var ids []string
-	for k := 0; k < portion; k++ {
-		ids = append(ids, fmt.Sprintf("%032x", 0x1000+c.ID*16+k))
+	if kind == 0 {
+		for k := 0; k < portion; k++ {
+			ids = append(ids, fmt.Sprintf("%032x", 0x1000+c.ID*16+k))
+		}
 	}
 	pc.CachedTraceIds = ids
 }
@@ -712,6 +728,7 @@ func generate(seed int64, n int) []*Case {
 	var cases []*Case
 	for i := 0; i < n; i++ {
 		c := &Case{ID: i}
+		mixed := false
 		switch x := r.Intn(10); {
 		case x < 4:
 			c.Lang = "logql"
@@ -736,6 +753,7 @@ func generate(seed int64, n int) []*Case {
 			c.Lang = "traceql"
 			c.Query, c.Class = genTraceQL(r)
 			c.Mode = []string{"plan", "plan", "plan", "tags", "values", "eval"}[r.Intn(6)]
+			mixed = hx.Rand(seed*131 + int64(i)).Intn(2) == 0
 		default:
 			c.Lang = "prof"
 			c.Query = genProf(r)
@@ -747,6 +765,17 @@ func generate(seed int64, n int) []*Case {
 			Cluster: r.Intn(4) == 0, Type: []uint8{0, 1, 1, 2}[r.Intn(4)], Finalize: r.Intn(5) != 0, StepMs: []int64{1000, 15000, 60000}[r.Intn(3)]}
 		if c.Lang == "traceql" && c.Ctx.Limit == 0 {
 			c.Ctx.Limit = 20
+		}
+		if mixed {
+			// one prepared plan meets plain executions and portions of a complex request in any order
+			rs := hx.Rand(seed*131 + int64(i) + 7)
+			if len(c.Windows) < 2 {
+				c.Windows = genWindows(rs, 2+rs.Intn(3))
+			}
+			for range c.Windows {
+				c.Sched = append(c.Sched, []int{0, 1, 1, 2}[rs.Intn(4)])
+			}
+			c.Class = append(c.Class, "mixed-contexts")
 		}
 		cases = append(cases, c)
 	}
